@@ -808,7 +808,7 @@ pub fn one_main(args: &[String]) -> i32 {
     };
     let outcome = evaluate_one(&spec);
     remove_logo_dir();
-    println!("{}", serde_json::json!({"outcome": outcome}));
+    println!("\n{}", serde_json::json!({"outcome": outcome}));
     0
 }
 
@@ -1293,9 +1293,15 @@ pub fn render_term_outcome(q: &QRCode, print: bool) -> Outcome {
     if print {
         // `QRCode::print` writes to the process's stdout; the bytes this thread sends to fd 1
         // while the call runs are captured by the `write` shim instead of reaching the terminal
+        // stdout is one buffer for the whole process: while this call is captured no other task
+        // may run (its output - a debug print somewhere in a build, say - would be flushed by
+        // this thread and counted as this call's), so the call passes its scheduling points
+        // without consulting the scheduler
+        sched::set_quiet(true);
         crate::c19::shim::capture_stdout_begin();
         let r = catch_unwind(AssertUnwindSafe(|| q.print()));
         let bytes = crate::c19::shim::capture_stdout_end();
+        sched::set_quiet(false);
         return match r {
             Ok(()) => bytes_outcome(&bytes),
             Err(p) => classify_panic(p),
